@@ -215,7 +215,7 @@ def cli(x, p):
         x.tag('not found')
         x.check('a require() whose file cannot be found fails the build',
                 Or(exc is not None, rc != 0))
-        x.check('and no cart is written', len(fs.opened_for_write) == 0)
+        x.check('and no cart is written', clikit.changed(fs) == [])
         return
     x.tag('found')
     x.check('build succeeds', And(exc is None, rc == 0),
